@@ -199,17 +199,33 @@ func ruleCookieGate(c *Ctx, r *Report) {
 		}
 		r.Check(okRet && badNext == "", rule, short(f0), c.pos(f0.Pos()), "with hello verification on, the first ClientHello yields only 'wait', the cookie flight, or a resumption decided by handleHelloResume(next=Flight2)", "with hello verification on the first ClientHello can lead past the cookie flight: "+badNext)
 		if hr := c.Fn(v.pkg + ".handleHelloResume"); hr != nil {
-			good := true
-			for _, b := range hr.Blocks {
-				if ret, ok := b.Instrs[len(b.Instrs)-1].(*ssa.Return); ok {
+			// a tail call into a helper of the package that installs the session counts as what the
+			// helper returns (failure or the abbreviated flight, never a parameter of its own)
+			var retsOK func(fn *ssa.Function, d int) bool
+			retsOK = func(fn *ssa.Function, d int) bool {
+				for _, b := range fn.Blocks {
+					ret, ok := b.Instrs[len(b.Instrs)-1].(*ssa.Return)
+					if !ok || len(ret.Results) == 0 {
+						continue
+					}
 					res := unspill(ret.Results[0])
 					k, isC := constInt(res)
 					_, isP := res.(*ssa.Parameter)
-					if !(isP || (isC && (k == 0 || k == fl["Flight4b"]))) {
-						good = false
+					if (isP && d == 0) || (isC && (k == 0 || k == fl["Flight4b"])) {
+						continue
 					}
+					if ex, isEx := res.(*ssa.Extract); isEx && ex.Index == 0 && d < 2 {
+						if call, isCall := ex.Tuple.(*ssa.Call); isCall {
+							if g := call.Call.StaticCallee(); g != nil && g.Pkg == hr.Pkg && len(g.Blocks) > 0 && retsOK(g, d+1) {
+								continue
+							}
+						}
+					}
+					return false
 				}
+				return true
 			}
+			good := retsOK(hr, 0)
 			r.Check(good, rule, short(hr), c.pos(hr.Pos()), "returns only failure, the abbreviated flight of a known session, or the caller's next flight", "handleHelloResume can return a flight other than Flight4b / the caller's choice")
 		}
 		// second hello: success guarded by the validation, against the issued cookie
@@ -384,9 +400,12 @@ func ruleSessionStore(c *Ctx, r *Report) {
 	}
 	r.Floor(rule, n, 2)
 	// (2) resumed master secret comes from the store, keyed by the offered id / the session key
-	for _, st := range c.StoresTo(tSt12, "MasterSecret") {
+	for _, st := range c.liftParamStores(c.StoresTo(tSt12, "MasterSecret")) {
 		fn := st.Fn
 		key := short(fn) + ":MasterSecret"
+		if st.Via != nil {
+			key = short(st.Via) + "<-" + key
+		}
 		ls := c.Origins(st.Val, 0)
 		switch {
 		case allLeaves(ls, func(v ssa.Value) bool {
@@ -1075,6 +1094,18 @@ func funcDenoted(v ssa.Value, d int) *ssa.Function {
 		return x
 	case *ssa.MakeClosure:
 		f, _ := x.Fn.(*ssa.Function)
+		if f != nil && strings.HasPrefix(f.Synthetic, "bound method wrapper") {
+			// a method value: the method itself, when it is a concrete one of the module
+			for _, b := range f.Blocks {
+				for _, in := range b.Instrs {
+					if call, ok := in.(*ssa.Call); ok {
+						if m := call.Call.StaticCallee(); m != nil && inModule(m) && len(m.Blocks) > 0 {
+							return m
+						}
+					}
+				}
+			}
+		}
 		return f
 	case *ssa.ChangeType:
 		return funcDenoted(x.X, d+1)
@@ -1338,11 +1369,13 @@ func ruleDowngradeSentinel(c *Ctx, r *Report) {
 		w := &Walk{Fn: gen, Follow: followSamePkg(gen), Assume: max13}
 		w.FromEntry()
 		marked := false
+		var marks []*ssa.Call
 		for in := range w.Reached {
 			cl, ok := in.(*ssa.Call)
 			if !ok || calleeName(&cl.Call) != "builtin:copy" || len(cl.Call.Args) != 2 || !isSentinel(cl.Call.Args[1]) {
 				continue
 			}
+			marks = append(marks, cl)
 			// destination: the tail of LocalRandom.RandomBytes
 			if sl, ok := cl.Call.Args[0].(*ssa.Slice); ok && sl.High == nil {
 				if _, f, _, ok := fieldOfAddr(sl.X); ok && f == "RandomBytes" {
@@ -1362,6 +1395,48 @@ func ruleDowngradeSentinel(c *Ctx, r *Report) {
 		}
 		// and it must come after the random is drawn, on every path that returns success
 		r.Check(marked, rule, short(gen)+":marks-random", c.pos(gen.Pos()), "with DTLS 1.3 enabled the DTLS 1.2 server random ends in the sentinel", "with DTLS 1.3 enabled the function that draws the DTLS 1.2 server random does not copy the downgrade sentinel into its last eight bytes")
+		// ... and stays there: nothing writes the random again once it is marked
+		if marked {
+			over := ""
+			for _, mk := range marks {
+				if mk.Parent() != gen {
+					continue
+				}
+				wa := &Walk{Fn: gen, Follow: followSamePkg(gen), Assume: max13}
+				wa.After(mk)
+				for in := range wa.Reached {
+					if in == ssa.Instruction(mk) {
+						continue
+					}
+					switch x := in.(type) {
+					case *ssa.Store:
+						if _, f, _, ok := fieldOfAddr(x.Addr); ok && f == "RandomBytes" {
+							over = c.ipos(x)
+						}
+						if ia, isIA := x.Addr.(*ssa.IndexAddr); isIA {
+							if _, f, _, ok := fieldOfAddr(ia.X); ok && f == "RandomBytes" {
+								over = c.ipos(x)
+							}
+						}
+					case *ssa.Call:
+						name := calleeName(&x.Call)
+						if name == "builtin:copy" {
+							if sl, isSl := x.Call.Args[0].(*ssa.Slice); isSl {
+								if _, f, _, ok := fieldOfAddr(sl.X); ok && f == "RandomBytes" {
+									over = c.ipos(x)
+								}
+							}
+						}
+						if strings.HasSuffix(name, "handshake.Random).Populate") || strings.HasSuffix(name, "handshake.Random).UnmarshalFixed") {
+							if _, f, _, ok := fieldOfAddr(x.Call.Args[0]); ok && f == "LocalRandom" {
+								over = c.ipos(x)
+							}
+						}
+					}
+				}
+			}
+			r.Check(over == "", rule, short(gen)+":mark-stays", c.pos(gen.Pos()), "nothing writes the server random after the sentinel was copied into it", "the server random is written again ("+over+") after the downgrade sentinel was copied into it: the marker is gone from the ServerHello under that configuration, and a client whose supported_versions was stripped completes on DTLS 1.2 although both ends allow DTLS 1.3")
+		}
 	}
 	// (b) client
 	if p := c.need(r, rule, pkgF12+".flight3Parse"); p != nil {
